@@ -213,6 +213,10 @@ class GTensor:
     def copy(self):
         return GTensor(self.axes, self.body, self.dtype)
 
+    def mean(self, axis=None):
+        return g_mean(self, axis)
+
+
     def astype(self, dtype):
         return GTensor(self.axes, self.body, np.dtype(dtype).name)
 
@@ -1412,7 +1416,29 @@ def transpose(t, axes=None):
 
 
 def getitem(t, idx):
+    if (isinstance(idx, tuple) and len(idx) == 2 and all(isinstance(i, np.ndarray) and i.ndim == 1 and i.dtype.kind in "iu" for i in idx) and len(idx[0]) == len(idx[1])
+            and isinstance(t, GTensor) and t.ndim == 2):
+        # numpy's paired advanced indexing t[rows, cols] with concrete index vectors: the vector of the entries t[rows[k], cols[k]]
+        return stack([_getitem0(t, (builtins.int(i), builtins.int(j))) for i, j in zip(idx[0].tolist(), idx[1].tolist())], axis=0)
+    if isinstance(idx, ElemCond):
+        # boolean-mask selection: a fresh 1-d array whose length (the number of selected entries) and values are arbitrary
+        from .symint import atom as _atom
+        return opaque_tensor("MASKSEL", [_atom(f"nsel{len(OPAQUE)}")], t.dtype)
     r = _getitem0(t, idx)
     if isinstance(t, GTensor) and _basic_index(idx):
         _view(t, r, False)     # basic slicing returns a view
     return r
+
+
+_index_update0 = index_update
+
+
+def index_update(t, idx, values):
+    if isinstance(idx, ElemCond):
+        # masked assignment t[mask] = values: the write is logged; the new value of t is arbitrary on the masked entries (havoc'd as a whole)
+        log("index_update")
+        WRITE_LOG.append(dict(target=root(t), via=t, op="index_update / masked item assignment"))
+        h = opaque_tensor("HAVOC", axis_sizes(t), t.dtype)
+        t.axes, t.body = h.axes, h.body
+        return t
+    return _index_update0(t, idx, values)
